@@ -49,6 +49,38 @@ sub h_nest(INTEGER var.p) {
   call h_s(var.s_a);
   set var.own = f_i(var.own);
 }
+sub f_rec(INTEGER var.p, INTEGER var.depth) INTEGER {
+  declare local var.mine INTEGER;
+  declare local var.q INTEGER;
+  declare local var.d INTEGER;
+  declare local var.ignored INTEGER;
+  set var.mine = var.p;
+  if (var.depth > 0) {
+    set var.q = var.p;
+    set var.q += 1000;
+    set var.d = var.depth;
+    set var.d -= 1;
+    set var.ignored = f_rec(var.q, var.d);
+  }
+  return var.mine;
+}
+sub h_rec(INTEGER var.p, INTEGER var.depth, BOOL var.outermost) {
+  declare local var.mine INTEGER;
+  declare local var.q INTEGER;
+  declare local var.d INTEGER;
+  declare local var.top BOOL;
+  set var.mine = var.p;
+  set var.top = var.outermost;
+  if (var.depth > 0) {
+    set var.q = var.p;
+    set var.q += 1000;
+    set var.d = var.depth;
+    set var.d -= 1;
+    call h_rec(var.q, var.d, false);
+  }
+  if (var.top) { set req.http.X-Rec = "mine=" var.mine; }
+  if (var.outermost != var.top) { set req.http.X-Rec = "flag"; }
+}
 sub f_nest(STRING var.p) STRING {
   declare local var.s_b STRING;
   declare local var.i_b INTEGER;
@@ -86,6 +118,12 @@ type astmt struct {
 	allowed map[string]bool
 	groups  bool
 	kind    string
+	same    [2]string // value law: after the statement [0] holds what [1] held before it
+}
+
+// predefined variables writable in vcl_recv, with the tag of the local type they exchange values with
+var aliasPredef = []struct{ name, tag string }{
+	{"client.identity", "s"}, {"req.max_stale_if_error", "r"}, {"req.hash_always_miss", "b"}, {"req.esi", "b"}, {"req.max_stale_while_revalidate", "r"},
 }
 
 func hdrAllowed(name string) map[string]bool {
@@ -130,6 +168,11 @@ func aliasProgram(r *rand.Rand, n int) (string, []astmt, []string) {
 	pool = append(pool, "req.http.X-Foo:k", "req.http.X-Foo:k2", "re.group.0", "re.group.1", "re.group.2", "req.url", "req.method", "req.http.Canary")
 	// the declared backends themselves (an identifier is evaluated again at every read) and the request's backend
 	pool = append(pool, "be_one", "be_two", "be_three", "req.backend")
+	// predefined variables that can be written in vcl_recv (they hold a value of their own, not the one assigned from)
+	for _, pv := range aliasPredef {
+		pool = append(pool, pv.name)
+	}
+	pool = append(pool, "req.http.X-Rec")
 	var stmts []astmt
 	add := func(kind, text string, allowed map[string]bool, groups bool) {
 		stmts = append(stmts, astmt{text: text, allowed: allowed, groups: groups, kind: kind})
@@ -157,7 +200,32 @@ func aliasProgram(r *rand.Rand, n int) (string, []astmt, []string) {
 	for len(stmts) < n+24 {
 		t := atypes[r.Intn(len(atypes))]
 		x, y := v(t), v(t)
-		switch k := r.Intn(22); {
+		switch k := r.Intn(27); {
+		case k == 22:
+			// unary minus of a parenthesised operand, as a value and inside a condition
+			nt := atypes[[]int{0, 1, 4}[r.Intn(3)]]
+			nx, ny := v(nt), v(nt)
+			if r.Intn(2) == 0 {
+				add("neg-group/"+nt.vcl, fmt.Sprintf("set %s = -(%s);", nx, ny), one(nx), false)
+			} else {
+				add("neg-group/condition", fmt.Sprintf("if (%s == -(%s)) { }", nx, ny), map[string]bool{}, false)
+			}
+		case k == 23:
+			// a recursive functional subroutine that returns its own local after the inner calls: the identity
+			ix, iy := fmt.Sprintf("var.i_%c", "abcd"[r.Intn(4)]), fmt.Sprintf("var.i_%c", "abcd"[r.Intn(4)])
+			stmts = append(stmts, astmt{text: fmt.Sprintf("set %s = f_rec(%s, %d);", ix, iy, 1+r.Intn(3)), allowed: one(ix), kind: "functional/recursive", same: [2]string{ix, iy}})
+		case k == 24:
+			// a recursive subroutine whose outermost invocation reports its own local in a header
+			iy := fmt.Sprintf("var.i_%c", "abcd"[r.Intn(4)])
+			stmts = append(stmts, astmt{text: fmt.Sprintf("call h_rec(%s, %d, true);", iy, 1+r.Intn(3)), allowed: one("req.http.X-Rec"), kind: "call/recursive", same: [2]string{"req.http.X-Rec", iy}})
+		case k == 25 || k == 26:
+			pv := aliasPredef[r.Intn(len(aliasPredef))]
+			lx := fmt.Sprintf("var.%s_%c", pv.tag, "abcd"[r.Intn(4)])
+			if k == 25 {
+				add("predefined-set/"+pv.name, fmt.Sprintf("set %s = %s;", pv.name, lx), one(pv.name), false)
+			} else {
+				add("predefined-to-local/"+pv.name, fmt.Sprintf("set %s = %s;", lx, pv.name), one(lx), false)
+			}
 		case k == 18:
 			// a TIME shifted by an RTIME literal inside a string concatenation (a fresh value, the local stays)
 			sx, ty := fmt.Sprintf("var.s_%c", "abcd"[r.Intn(4)]), fmt.Sprintf("var.t_%c", "abcd"[r.Intn(4)])
@@ -313,6 +381,17 @@ func runAlias(oc *fw.Outcome, cc ccase) {
 			st := stmts[seq[k].idx]
 			oc.Tag("transition:alias/" + st.kind)
 			checked++
+			if st.same[0] != "" {
+				before, after := seq[k].vals[st.same[1]], seq[k+1].vals[st.same[0]]
+				want := canon(before)
+				if st.kind == "call/recursive" {
+					want = "STRING:mine=" + before.Str
+				}
+				if before.Err == "" && canon(after) != want {
+					oc.Violate("alias:"+st.kind+"/own-local", fmt.Sprintf("`%s`: %s reads %s afterwards, the invocation's own local held %s: the locals of an outer invocation were overwritten by an inner one", st.text, st.same[0], canon(after), want),
+						map[string]any{"sub": clip(src, 6000), "statement": st.text})
+				}
+			}
 			for _, nm := range pool {
 				a, b := canon(seq[k].vals[nm]), canon(seq[k+1].vals[nm])
 				if a == b || st.allowed[nm] || st.groups && strings.HasPrefix(nm, "re.group.") {
